@@ -6,7 +6,7 @@ import gen
 from props.C05 import KEYS, tie_tree, keyval
 
 RULE = ("per generated (tree, query) every N in 1..M+2 exhaustively (M = rows of the unlimited run), queries filtered or "
-        "not, ordered (keys with ties straddling the cut) or not, bfs/dfs, one or two roots; (a) CLI output vs the "
+        "not, ordered (keys with ties straddling the cut) or not, bfs/dfs, one or two roots, the first column plain or wrapped in a function whose later argument is the column; (a) CLI output vs the "
         "Lean model, (b) oracle against the unlimited run of the same binary: row count = min(N, M); unordered: "
         "sub-multiset; ordered: key sequence = first N keys of the unlimited sorted run. distinct = (tree, argv); "
         "nontrivial = 1 <= N < M")
@@ -46,7 +46,10 @@ def run(ctx):
                     roots = "%s, %s" % (r.choice(dirs), r.choice(["." + "/" + "zz-none", r.choice(dirs)]))
                     roots = roots if "zz-none" not in roots else r.choice(dirs)
                 trav = r.choice(["", " bfs", " dfs"]) + (r.choice([" arc", " archives"]) if with_arc and r.chance(2, 3) else "")
-                sel = ["path"] + [k for k, _ in keys]
+                # every fourth query shows the path through a function whose *later* argument is the column: still one
+                # row per entry (an absent limit is no limit, whatever the select list looks like)
+                first = "path" if not r.chance(1, 4) else r.choice(["concat('x-', path)", "coalesce('', path)", "concat_ws('_', 'p', path)", "upper(concat('x-', path))"])
+                sel = [first] + [k for k, _ in keys]
                 order = (" order by " + ", ".join(k + ("" if a else " desc") for (k, _), a in zip(keys, asc))) if keys else ""
                 base = "select %s from %s%s%s%s" % (", ".join(sel), roots, trav, where, order)
                 un = common.run_cli([base + " into list"], cwd=snap.root, scratch=scratch)
@@ -55,6 +58,13 @@ def run(ctx):
                     continue
                 full = rows_of(un["out"], len(sel))
                 M = len(full)
+                if first != "path":
+                    plain = common.run_cli([base.replace(first, "path", 1) + " into list"], cwd=snap.root, scratch=scratch)
+                    ctx.case((t, base, "rows-independent-of-select-list"))
+                    if len(rows_of(plain["out"], len(sel))) != M:
+                        ctx.oracle_fail("without LIMIT the number of rows must not depend on how the select list spells a column",
+                                        {"argv": [base + " into list"], "plain_argv": [base.replace(first, "path", 1) + " into list"]},
+                                        detail={"rows": M, "rows_with_plain_column": len(rows_of(plain["out"], len(sel)))})
                 ctx.hist("M", min(M, 40) // 5 * 5)
                 for N in range(1, M + 3):
                     q = base + " limit %d into list" % N
